@@ -97,12 +97,17 @@ pub fn totality(out: &mut Out, tier: &str, seed: u64) {
     let thorough = tier == "thorough";
     let mut strings: Vec<(String, String)> = grammar(&mut rng, if thorough { 40 } else { 8 });
     for s in soup(&mut rng, if thorough { 3000 } else { 400 }) { strings.push(("soup".into(), s)); }
+    // well-formed strings whose costs sit at the numeric boundaries (nothing is hashed for the object parse; the verify and
+    // needs_rehash forms reject or answer without the memory)
+    for alg in ["argon2i", "argon2id"] { for m in [4194303u64, 4194304, 4194305, 4294967295] { for t in [1u64, 4294967295] {
+        strings.push(("boundary-costs-parse-only".into(), format!("${}$v=19$m={},t={},p=1$c2FsdHNhbHRzYWx0c2FsdA$AAECAwQFBgcICQoLDA0ODxAREhMUFRYXGBkaGxwdHh8", alg, m, t)));
+    } } }
     for (class, s) in strings.iter() {
         for (name, r) in [
-            ("pwhash.str_verify", guard(|| crypto_pwhash_str_verify(s, b"password"))),
+            ("pwhash.str_verify", if class == "boundary-costs-parse-only" { Outcome::Err } else { guard(|| crypto_pwhash_str_verify(s, b"password")) }),
             ("pwhash.str_needs_rehash", guard(|| crypto_pwhash_str_needs_rehash(s, 2, 16 * 1024).map(|_| ()))),
             ("obj.pwhash.from_string", guard(|| VecPwHash::from_string(s).map(|_| ()))),
-            ("obj.pwhash.from_string+verify", guard(|| VecPwHash::from_string(s).and_then(|p| p.verify(b"password")))),
+            ("obj.pwhash.from_string+verify", if class == "boundary-costs-parse-only" { Outcome::Err } else { guard(|| VecPwHash::from_string(s).and_then(|p| p.verify(b"password"))) }),
             ("obj.pwhash.from_string+to_string", guard(|| VecPwHash::from_string(s).map(|p| { let _ = p.to_string(); }))),
         ] {
             out.search_evaluations += 1;
